@@ -81,13 +81,24 @@ pub fn unhex(s: &str) -> Vec<u8> {
         .collect()
 }
 
+/// Where scratch files go: the root handed down by the `check` driver (removed by it at the end,
+/// so that workers that are killed or abort leave nothing behind), else tmpfs, else /var/tmp.
+pub fn scratch_base() -> String {
+    if let Ok(r) = std::env::var("JBKMC_SCRATCH_ROOT") {
+        if std::path::Path::new(&r).is_dir() {
+            return r;
+        }
+    }
+    if std::path::Path::new("/dev/shm").is_dir() {
+        "/dev/shm".into()
+    } else {
+        "/var/tmp".into()
+    }
+}
+
 /// A scratch directory on tmpfs when available (removed on drop).
 pub fn scratch_dir(tag: &str) -> tempfile::TempDir {
-    let base = if std::path::Path::new("/dev/shm").is_dir() {
-        "/dev/shm"
-    } else {
-        "/var/tmp"
-    };
+    let base = scratch_base();
     tempfile::Builder::new()
         .prefix(&format!("jbkmc-{tag}-"))
         .tempdir_in(base)
